@@ -1,40 +1,55 @@
-"""C08 - concurrent requests on one application never see each other (callback-level preemption bound)."""
+"""C08 - concurrent requests on one application never see each other (statement-level and callback-level preemption)."""
 from vf.engine import assume, cover
 from vf.query import Q
 from vf import stubs
+from vf import instrument
 
-import ombott
+instrument.install("ombott")     # scheduling points in front of every statement of ombott's functions (this process only)
+import ombott                    # noqa: E402
 from ombott import HTTPError, HTTPResponse
 
 PROPERTY = "C08"
 TECHNIQUE = ("bounded symbolic execution of Ombott.__call__ (CrossHair+z3) with threading.local replaced by a simulated-thread "
-             "stub: 2-3 simulated threads share one application, the preemption point (among the user-callback boundaries), "
-             "request data and handler writes are solver variables; oracle = each request served alone")
-LEVEL_TEXT = ("HARD BOUND. CPython thread interleavings at statement granularity cannot be made solver variables with the "
-              "installed tools; what is decided: with threading.local replaced by SimLocal (one namespace per object and "
-              "simulated thread), thread T0's request is preempted at a solver-chosen boundary: a user callback (before-hook, "
-              "handler entry, after the handler's writes, between two items of a lazily produced body while the server "
-              "iterates it, after-hook) or the entry of a framework-internal call (RadiRouter.resolve, Route.__getitem__, "
-              "Ombott._cast, HTTPResponse.apply, BaseResponse.headerlist, error_render.render - wrapped in the checking "
-              "process) and thread T1 (which may itself be preempted by T2) serves a complete request on the "
-              "SAME application before T0 resumes; request data and handler writes of all threads are symbolic. z3 decides "
-              "every branch; inside the bound every response equals the one the same request produces alone and each handler "
-              "sees only its own request/response. This catches per-request state that is not thread-local; it says nothing "
-              "about preemption between two framework statements.")
-LEVEL_NOTE = ("Trusted: z3, CrossHair str models, the SimLocal/SimThreads stub (contract of threading.local), LIFO scheduling. "
-              "Outside: preemption inside framework code, real OS threads, more than 3 threads / 1 preemption per thread.")
+             "stub: 2-3 simulated threads share one application; the schedule is a solver variable: (a) the number of the "
+             "ombott statement of T0's request in front of which T1's whole request runs (every statement of every function "
+             "of the package, scheduling points inserted at import from the current source), (b) user-callback and "
+             "framework call boundaries together with symbolic request data and handler writes; oracle = each request "
+             "served alone")
+LEVEL_TEXT = ("BOUNDED SCHEDULES. threading.local is replaced by SimLocal (one namespace per object and simulated thread). "
+              "Family stmt/: both requests concrete, the solver chooses k; thread T1 serves a complete request on the SAME "
+              "application in front of the k-th statement that thread T0's request executes inside ombott (all 330-640 "
+              "statements, every function of the package: the modules are compiled from /repo's current source with a "
+              "scheduling point in front of each statement of each function body); every k is decided. Family threads/: "
+              "T0 is preempted at a solver-chosen user-callback boundary (before-hook, handler entry, after the handler's "
+              "writes, between two items of a lazily produced body while the server iterates it, after-hook) or framework "
+              "call boundary (RadiRouter.resolve, Route.__getitem__, Ombott._cast, HTTPResponse.apply, headerlist, "
+              "error_render.render) by T1 (which may itself be preempted by T2), with symbolic request data and handler "
+              "writes of all threads. Inside the bound every response equals the one the same request produces alone and "
+              "each handler sees only its own request/response. Schedules are LIFO (the preempting thread runs its whole "
+              "request) with one preemption per thread.")
+LEVEL_NOTE = ("Trusted: z3, CrossHair str models, the SimLocal/SimThreads stub (contract of threading.local), the AST "
+              "instrumentation of vf/instrument.py (inserts calls only). Outside: switches between two bytecodes of one "
+              "statement, non-LIFO interleavings (two requests alternating more than once), real OS threads, more than 3 "
+              "threads.")
 FUNCTIONS = [
     "ombott.common_helpers:ts_props", "ombott.common_helpers:HeaderDict.__init__", "ombott.ombott:Ombott._handle",
-    "ombott.ombott:Ombott._cast", "ombott.ombott:Ombott.wsgi", "ombott.ombott:Ombott.emit",
+    "ombott.ombott:Ombott._cast", "ombott.ombott:Ombott.wsgi", "ombott.ombott:Ombott.emit", "ombott.ombott:Ombott.to_route",
     "ombott.request_pkg.request:BaseRequest.__init__", "ombott.response:BaseResponse.__init__",
     "ombott.response:BaseResponse.set_cookie", "ombott.response:HTTPResponse.apply",
+    "ombott.router.radidict:RadiDict.get", "ombott.router.radirouter:RadiRouter.resolve", "ombott.error_render:render",
 ]
 STUBS = ["SimLocal/SimThreads for `threading` inside ombott.common_helpers (every application of this harness)",
+         "vf.instrument: every ombott module is compiled from its current source with a call __vf_pp__() in front of each "
+         "statement of each function body (no other change; /repo untouched); the call is a no-op unless a stmt/ query is "
+         "counting",
          "call-boundary wrappers around RadiRouter.resolve, Route.__getitem__, Ombott._cast, HTTPResponse.apply, "
          "BaseResponse.headerlist, error_render.render: call the scenario's scheduler, then the original (no other change)"]
-ASSUMPTIONS = ["threading.local gives each thread its own attribute namespace per local object (the stub's contract)"]
-OUTSIDE = ["preemption between two framework statements (not reachable by this technique)", "non-LIFO schedules",
-           "more than one preemption per thread, more than 3 threads", "request text beyond 1 letter/digit"]
+ASSUMPTIONS = ["threading.local gives each thread its own attribute namespace per local object (the stub's contract)",
+               "a thread switch happens between two statements (CPython switches between bytecodes: a switch inside one "
+               "statement is outside)"]
+OUTSIDE = ["switches inside one statement", "non-LIFO schedules (the preempted request resumes only after the other finished)",
+           "more than one preemption per thread, more than 3 threads", "threads/ family: request text beyond 1 letter/digit; "
+           "stmt/ family: request data other than the concrete requests of each kind"]
 BUDGET_S = {"quick": 240, "thorough": 1000}
 
 stubs.install_sim_threads()
@@ -132,6 +147,10 @@ def build_app(sched):
             sched("between_items")
             yield "2:" + app.request.path + ":" + str(app.response.status_code)
         return body()
+
+    @app.route("/s/new")          # a literal sibling of the wildcard rule: paths like /s/n1 make the router backtrack
+    def s_new():
+        return "new"
 
     @app.route("/s/:x")
     def s(x):
@@ -256,9 +275,98 @@ def _make(k0, k1, k2):
     return q
 
 
+# ---------------------------------------------------------------- preemption between two framework statements
+class StmtSched:
+    """counts the statements simulated thread T0 executes inside ombott (scheduling points of vf.instrument) and lets
+    thread T1 serve a whole request on the same application in front of statement number k"""
+
+    def __init__(self, k, app, env1):
+        self.k, self.app, self.env1 = k, app, env1
+        self.count = 0
+        self.result = None
+
+    def __call__(self):
+        if stubs.SimThreads.cur != "T0":
+            return
+        self.count += 1
+        if self.count == self.k:
+            stubs.SimThreads.cur = "T1"
+            try:
+                self.result = serve(self.app, self.env1)
+            finally:
+                stubs.SimThreads.cur = "T0"
+
+
+STMT_REQ = {"T0": ("n1", "q=0", "c0"), "T1": ("n2", "q=1", "c1")}
+STMT_WRITES = {"T0": (200, "o0", "s0"), "T1": (404, "p1", "s1")}
+BITS = 11
+
+
+def stmt_alone(kind, t):
+    ref = alone(kind, *STMT_REQ[t], STMT_WRITES[t])
+    CUR[0] = None
+    return ref
+
+
+def stmt_run(k0, k1, k):
+    stubs.SimThreads.cur = "T0"
+    s = Sched({}, {}, STMT_WRITES)
+    CUR[0] = None
+    app = build_app(s)
+    s.app = app
+    st = StmtSched(k, app, env_for(k1, *STMT_REQ["T1"]))
+    instrument.set_hook(st)
+    try:
+        r0 = serve(app, env_for(k0, *STMT_REQ["T0"]))
+    finally:
+        instrument.set_hook(None)
+    return r0, st, s.seen
+
+
+def make_stmt(k0, k1):
+    """both requests are concrete; the solver variable is the schedule: the number k (given by its binary digits, one
+    decision each) of the ombott statement of T0's request in front of which T1's whole request runs"""
+    refs = {"T0": stmt_alone(k0, "T0"), "T1": stmt_alone(k1, "T1")}
+    n0 = stmt_run(k0, k1, 0)[1].count               # statements T0's request executes inside ombott
+    assert 0 < n0 < 2 ** BITS, n0
+
+    def q(b0: bool, b1: bool, b2: bool, b3: bool, b4: bool, b5: bool, b6: bool, b7: bool, b8: bool, b9: bool, b10: bool):
+        k = 0
+        for i, b in enumerate((b0, b1, b2, b3, b4, b5, b6, b7, b8, b9, b10)):
+            if b:
+                k += 1 << i
+        assume(1 <= k <= n0)
+        r0, st, seen = stmt_run(k0, k1, k)
+        if st.result is None:
+            return "T0 executed %d statements natively but only %d now: statement %d not reached" % (n0, st.count, k)
+        cover("preempted")
+        for t, res, kind in (("T0", r0, k0), ("T1", st.result, k1)):
+            if res != refs[t][0]:
+                return "T1's request served in front of statement %d of %d of T0's %s request: thread %s (%s request) got %r, alone %r" % (
+                    k, n0, k0, t, kind, res, refs[t][0])
+            mine = [x[1:] for x in seen if x[0] == t]
+            if mine != refs[t][1]:
+                return "T1's request served in front of statement %d of %d: callbacks of thread %s saw %r, alone %r" % (
+                    k, n0, t, mine, refs[t][1])
+        return None
+    return q, n0
+
+
 def queries(tier):
     T = tier == "thorough"
     out = []
+    pairs = [("str", "str"), ("gen", "raise"), ("badbody", "badbody"), ("404", "str")]
+    if T:
+        pairs += [(a, b) for a in KINDS for b in KINDS if (a, b) not in pairs]
+    for k0, k1 in pairs:
+        fn, n0 = make_stmt(k0, k1)
+        out.append(Q("stmt/%s-%s" % (k0, k1), fn,
+                     "T0 serves the %r request %r; thread T1's complete %r request %r runs on the same application in front "
+                     "of statement k of the ombott code T0 executes, every k in 1..%d (all statements of all functions of the "
+                     "package, instrumented from the current source); LIFO, one preemption"
+                     % (k0, STMT_REQ["T0"], k1, STMT_REQ["T1"], n0),
+                     timeout=700 if not T else 1000, per_path_timeout=60, expect_cover=["preempted"], family="stmt",
+                     config={"t0": k0, "t1": k1, "statements": n0}))
     combos = [("gen", "gen", None), ("gen", "str", None), ("str", "raise", None), ("gen", "crash", None), ("raise", "404", None),
               ("badbody", "badbody", None), ("str", "badbody", None), ("gen", "gen", "str")]
     if T:
